@@ -9,7 +9,7 @@ for id in $IDS; do
   git -C $WT checkout -q -- . ; git -C $WT clean -fdq
   git -C $WT apply /verif/seeded/$id/patch.diff || { echo "$id: patch does not apply to $(git -C $WT rev-parse --short HEAD)"; continue; }
   for P in $(python3 -c "import json;print(' '.join(json.load(open('/verif/seeded/$id/meta.json'))['quick_checks_that_report_it']))"); do
-    O=$(VERIF_REPO=$WT VERIF_EVIDENCE_DIR=/tmp/ev-wt VERIF_WORKERS=${VERIF_WORKERS:-16} ./bin/verif check $P --tier quick 2>&1); RC=$?
+    O=$(VERIF_REPO=$WT VERIF_EVIDENCE_DIR=/tmp/ev-wt-$(basename $WT) VERIF_WORKERS=${VERIF_WORKERS:-16} ./bin/verif check $P --tier quick 2>&1); RC=$?
     case $RC in 1) R=CAUGHT;; 0) R=MISSED;; *) R="INFRA($RC)";; esac
     echo "$id $P $R $(echo "$O" | grep -m1 '^violation:' | cut -c1-120)"
   done
